@@ -81,7 +81,8 @@ def rand_attr(rnd, used):
         resid = None
         if ns == U and rnd.random() < 0.6:
             resid, name2 = rnd.choice(sorted(KNOWN.items()))
-            name = rnd.choice([name2, "", name2])            # aapt may leave the pool string empty when the id is known
+            # aapt may leave the pool string empty when the id is known; obfuscators rename it: the resource id decides
+            name = rnd.choice([name2, "", name2, "o" + name2[:2]])
             key = (ns, name2)
         elif ns == U and rnd.random() < 0.2:
             resid, key = 0x7F010000 + rnd.randrange(4), (ns, name)
